@@ -28,7 +28,7 @@ VARIABLES login,   \* "none" | "user" | "so"
           nracy,   \* C_UnwrapKey calls that a C_Logout of another thread overlapped (as built: such a call may leave a key
                    \* without value behind - whether it returned CKR_OK or, the handle being purged, an error)
           tlab,    \* the label of the shared public TOKEN key ("orig" at first)
-          trisk,   \* two C_SetAttributeValue calls on that key have overlapped (as built: the key may be lost, see TornWrite)
+          trisk,   \* a C_SetAttributeValue on that key has overlapped another call on it (as built: the key may be lost, see TornWrite)
           skey,    \* the thread whose session owns the shared sensitive session key (0: there is none)
           pend     \* per thread: [st: "idle" | "inv" | "done", c, a, b, rv, out, lo]
                    \* lo: a C_Logout call of another thread overlapped the call (in real time, not only its instant)
@@ -51,7 +51,9 @@ Inv(t, c, a, b) ==
                    ELSE IF c = "logout" /\ pend[u].st # "idle" THEN [pend[u] EXCEPT !.lo = TRUE]
                    ELSE IF c \in TokSets /\ pend[u].st # "idle" THEN [pend[u] EXCEPT !.busy = TRUE]
                    ELSE pend[u]]
-    /\ trisk' = (trisk \/ (c \in TokSets /\ \E w \in Threads \ {t} : pend[w].st # "idle" /\ pend[w].c \in TokSets))
+    \* (two calls on the token key overlap and at least one of them changes it)
+    /\ trisk' = (trisk \/ (c \in TokSets /\ \E w \in Threads \ {t} : pend[w].st # "idle" /\ pend[w].c \in TokSets \cup {"tget"})
+                       \/ (c = "tget" /\ \E w \in Threads \ {t} : pend[w].st # "idle" /\ pend[w].c \in TokSets))
     /\ UNCHANGED <<login, nsess, pin, open, ro, nkey, nracy, tlab, skey>>
 
 StateName == IF login = "so" THEN "RW_SO" ELSE IF login = "user" THEN "RW_USER" ELSE "RW_PUBLIC"          \* of a R/W session
